@@ -1560,8 +1560,9 @@ fn eval_c19(job: &Job) -> JobResult {
         }
     }
 
-    // (b) max_branches around the exact need
-    for (mb, want_ok) in [(b - 1, false), (b, true), (b + 1, true)] {
+    // (b) every max_branches from 1 to one above the exact need (whichever kind of decision -
+    // schedule, load, spurious - is the one that crosses the limit)
+    for (mb, want_ok) in (1..=b + 1).map(|mb| (mb, mb >= b)) {
         let mut c2 = cfg.clone();
         c2.max_branches = mb;
         let (s2, r2) = run_ctl(p, &c2);
@@ -1950,11 +1951,17 @@ fn eval_c18(job: &Job) -> JobResult {
         res.violations.push(viol("no_progress", sum.verdict.short(), "Ok: the awaited store happens in every execution".into(), msg, json!({})));
         return res;
     }
+    // attribution (for the known-findings list): is the outcome also missing from RC11 with
+    // loom's progress rule "a store read before the last yield is not read again once a newer
+    // one exists" (D24)?
+    let mut restricted: Option<rc11::Rc11Result> = None;
     for o in &rc.outcomes {
         if col.outcomes.contains_key(o) {
             res.traces_validated += 1;
         } else {
-            res.violations.push(viol("missing_outcome", fmt_outcome(o), "every exit value / continuation allowed by RC11 is explored".into(), format!("{} iterations, {} outcomes", col.iters, col.outcomes.len()), json!({"loom_outcomes": outs_json(col.outcomes.keys())})));
+            let r = restricted.get_or_insert_with(|| rc11::enumerate(p, Variant::Rc11YieldFilter, RC_MAX_STATES));
+            let attr = if !r.truncated && !r.outcomes.contains(o) { "store-read-before-yield-not-read-again" } else { "unattributed" };
+            res.violations.push(viol("missing_outcome", fmt_outcome(o), "every exit value / continuation allowed by RC11 is explored".into(), format!("{} iterations, {} outcomes", col.iters, col.outcomes.len()), json!({"loom_outcomes": outs_json(col.outcomes.keys()), "attribution": attr})));
         }
     }
     for (o, (first, n)) in &col.outcomes {
